@@ -14,8 +14,8 @@ RULE = ("bisect: ALL strictly increasing arrays of length 1..7 over a 9-point gr
         "non-trivial = >=1 comparison; distinct by (kind, array / seed)")
 ASSUMPTIONS = ["Hermite reproduction threshold: 8*eps*cond*(1+6(1+s)^2)*(1+|t0|/|L|) with cond = sum of |basis value * datum| (evaluated per query), extrapolation up to 1.5 interval lengths"]
 EXHAUSTIVE = {"quick": True, "thorough": True}
-FLOORS = {"quick": {"bisect_scalar_queries": 9000, "bisect_vector_queries": 9000, "hermite_queries": 3000, "insitu_contract_evaluations": 500},
-          "thorough": {"bisect_scalar_queries": 27000, "bisect_vector_queries": 27000, "hermite_queries": 30000, "insitu_contract_evaluations": 5000}}
+FLOORS = {"quick": {"bisect_scalar_queries": 9000, "bisect_vector_queries": 9000, "hermite_queries": 3000, "insitu_contract_evaluations": 500, "bisect_arrays_on_scaled_axes": 120},
+          "thorough": {"bisect_scalar_queries": 27000, "bisect_vector_queries": 27000, "hermite_queries": 30000, "insitu_contract_evaluations": 5000, "bisect_arrays_on_scaled_axes": 300}}
 GRID = [float(x) for x in range(-4, 5)]
 K = 8
 
@@ -39,6 +39,10 @@ def gen_cases(tier, seed):
         cases.append(dict(kind="bisect", dtype="float32", lo=0, hi=120, cost=3))
         cases.append(dict(kind="bisect", dtype="longdouble", lo=380, hi=501, cost=3))
     rng = rng_for(1701, seed)
+    # the same small-scope arrays and queries under affine maps of the axis: spacings far below sqrt(eps) and far above 1, large offsets
+    for (off, sc) in ((0.0, 1e-9), (0.0, 1e-12), (1.0, 2.0 ** -40), (1e6, 2.0 ** -20), (0.0, 1e9), (-3e-7, 1e-8), (-1e3, 1e-5)):
+        lo = int(rng.integers(0, 440))
+        cases.append(dict(kind="bisect", dtype="float64", lo=lo, hi=lo + (24 if tier == "quick" else 60), cost=2, off=off, sc=sc))
     for i in range(40 if tier == "quick" else 400):
         cases.append(dict(kind="hermite", dtype=str(rng.choice(["float64", "float64", "float32", "longdouble"])), pseed=int(rng.integers(1 << 30)), cost=1))
     for i in range(4 if tier == "quick" else 40):
@@ -65,6 +69,13 @@ def _bisect(spec):
     rec = util.Rec(sig="bisect|%s|%d" % (spec["dtype"], spec["lo"]))
     feats = {"kind": "bisect", "dtype": spec["dtype"]}
     queries = [x / 2.0 for x in range(-10, 11)]
+    if spec.get("sc"):
+        off, sc = float(spec["off"]), float(spec["sc"])
+        arrs = [[off + sc * x for x in a] for a in arrs]
+        queries = [off + sc * q for q in queries]
+        arrs = [a for a in arrs if all(y > x for x, y in zip(a[:-1], a[1:]))]     # (still strictly increasing after rounding)
+        feats["axis"] = "off=%g,scale=%g" % (off, sc)
+        rec.bump("bisect_arrays_on_scaled_axes", len(arrs))
     bad = 0
     for a in arrs:
         an = np.asarray(a, dtype=dt)
